@@ -144,6 +144,20 @@ func c06images() []*nsGen {
 	return out
 }
 
+// images where the newest snapshot and the last log entry sit on the SAME index with different terms
+// (getLastEntry's tie: the log entry wins): what electSelf advertises and what votes are compared with
+func c06tieImages() []*nsGen {
+	var out []*nsGen
+	for _, tt := range [][2]uint64{{1, 2}, {2, 1}} { // (term of log entry 2, term of the snapshot at 2)
+		g := &nsGen{self: 1, trailing: 100, maxapp: 4, cfgtab: [][]srv{cfgSAB}}
+		g.term = 3
+		g.entries = [][4]uint64{{1, 1, 5, 9000}, {2, tt[0], 0, 11}}
+		g.snaps = []nsSnap{{idx: 2, term: tt[1], cfg: cfgSAB, cfgidx: 1, data: []uint64{11}, ok: true}}
+		out = append(out, g)
+	}
+	return out
+}
+
 type c06sym struct {
 	ev     []uint64
 	durOps int // durable ops the handler may perform (for failure / cut enumeration)
@@ -166,6 +180,10 @@ func c06alphabet(t uint64) []c06sym {
 	a = append(a, c06sym{ev: evVote(t+1, 2, 2, 10, t, true, 0, nil), durOps: 3, kind: 1})
 	a = append(a, c06sym{ev: evVote(t+1, 3, 3, 4, 2, false, 0, nil), durOps: 3, kind: 1}) // behind a snapshot at (10,t), ahead of short logs
 	a = append(a, c06sym{ev: evPreVote(t+1, 2, 2, 10, t), kind: 2})
+	// a pre-vote from the server that is the advertised leader once its AppendEntries (below) was handled: the "we have a leader" refusal exempts it
+	a = append(a, c06sym{ev: evPreVote(t+1, 3, 3, 10, t), kind: 2})
+	// a vote request without an ID in the header (older senders): the membership checks are skipped, here for an address outside the configuration
+	a = append(a, c06sym{ev: evVote(t+1, 0, 4, 10, t, false, 0, nil), durOps: 3, kind: 1})
 	a = append(a, c06sym{ev: evAppend(t, 3, 3, 0, 0, nil, 0, 0, nil), durOps: 1, kind: 3})
 	a = append(a, c06sym{ev: evAppend(t+1, 3, 3, 0, 0, nil, 0, 0, nil), durOps: 1, kind: 3})
 	a = append(a, c06sym{ev: evRestart(), kind: 7})
@@ -216,6 +234,23 @@ func c06gen(cw *caseWriter, tier string, r *rng) {
 			}
 		}
 	}
+	// snapshot/log tie images: every pair of symbols (no failure variants), plus votes whose last term lies between the two terms
+	ties := c06tieImages()
+	tieAlpha := append(append([]c06sym(nil), alpha...),
+		c06sym{ev: evVote(4, 2, 2, 5, 1, false, 0, nil), durOps: 3, kind: 1},
+		c06sym{ev: evVote(4, 3, 3, 2, 2, false, 0, nil), durOps: 3, kind: 1},
+		c06sym{ev: evPreVote(4, 2, 2, 2, 1), kind: 2})
+	for _, g := range ties {
+		for _, s1 := range tieAlpha {
+			for _, s2 := range tieAlpha {
+				if tier == "quick" && r.intn(3) != 0 {
+					continue
+				}
+				emitSeq(g, append([][]uint64{s1.ev, s2.ev}, probe...))
+			}
+		}
+	}
+	imgs = append(imgs, ties...)
 	cw.stat("c06_enumerated_sequences", n)
 	// random longer sequences with failures and cuts anywhere
 	cnt := 1500
